@@ -554,6 +554,14 @@ func c16Gen(r *vfRand, adv bool) c16In {
 		if r.Bool() {
 			in.Ops = append(in.Ops, c16Op{Op: "sub", K: 0, Subs: subs()})
 		}
+		if r.Chance(1, 5) {
+			// a session with many subscriptions (more than any internal batch size), mixed QoS
+			many := []c15Sub{}
+			for i := 0; i < r.PickInt(65, 70, 130); i++ {
+				many = append(many, c15Sub{F: fmt.Sprintf("n/%d", i), Q: (i*7 + i/3) % 2})
+			}
+			in.Ops = append(in.Ops, c16Op{Op: "sub", K: 0, Subs: many})
+		}
 		if r.Chance(1, 2) {
 			in.Ops = append(in.Ops, c16Op{Op: "unsub", K: 0, Fs: unsubFs()})
 		}
